@@ -242,4 +242,45 @@ theorem top64_lt {digs : List Nat} {bts t : Nat} (h : top64 digs bts = some t)
           exact Nat.lt_of_le_of_lt (Nat.div_le_self _ _) this
       · simp at h
 
+theorem getElem_toDigits : ∀ (N n i : Nat), i < N → (toDigits N n)[i]? = some (n / W ^ i % W)
+  | 0, _, _, h => by omega
+  | N + 1, n, 0, _ => by simp [toDigits]
+  | N + 1, n, i + 1, h => by
+    simp only [toDigits, List.getElem?_cons_succ]
+    rw [getElem_toDigits N (n / W) i (by omega), Nat.pow_succ, Nat.div_div_eq_div_mul, Nat.mul_comm]
+
+/-- `top64` extracts bits `[bts-64, bts)` of the number -/
+theorem top64_toDigits (N n bts : Nat) (h1 : 64 ≤ bts) (h2 : bts ≤ 64 * N) :
+    top64 (toDigits N n) bts = some (n / 2 ^ (bts - 64) % W) := by
+  unfold top64
+  simp only
+  rw [if_neg (by omega)]
+  have hw := Nat.div_add_mod bts 64
+  generalize hwd : bts / 64 = w at *
+  generalize hkd : bts % 64 = k at *
+  have hk : k < 64 := by rw [← hkd]; exact Nat.mod_lt _ (by decide)
+  have hw1 : 1 ≤ w := by omega
+  by_cases hk0 : k = 0
+  · rw [if_pos hk0, getElem_toDigits N n (w - 1) (by omega), W_pow]
+    have : 64 * (w - 1) = bts - 64 := by omega
+    rw [this]
+  · rw [if_neg hk0, getElem_toDigits N n (w - 1) (by omega), getElem_toDigits N n w (by omega)]
+    simp only [Option.some.injEq]
+    rw [W_pow, W_pow, W_eq]
+    apply Nat.eq_of_testBit_eq
+    intro i
+    simp only [Nat.testBit_or, Nat.testBit_mod_two_pow, Nat.testBit_mul_two_pow, Nat.testBit_div_two_pow]
+    by_cases hi : i < 64
+    · by_cases hik : 64 - k ≤ i
+      · have e1 : i - (64 - k) + 64 * w = i + (bts - 64) := by omega
+        have e2 : ¬ (i + k < 64) := by omega
+        have e3 : i - (64 - k) < 64 := by omega
+        simp [hi, hik, e1, e2, e3]
+      · have e1 : i + k + 64 * (w - 1) = i + (bts - 64) := by omega
+        have e2 : i + k < 64 := by omega
+        simp [hi, hik, e1, e2]
+    · have e2 : ¬ (i + k < 64) := by omega
+      simp [hi, e2]
+
+
 end Ymq.Gcd
